@@ -668,3 +668,37 @@ def dodecahedron():
             p, i = nxt[cur]; ring.append(i); cur = p
         faces.append(tuple(ring))
     return cent, faces
+
+
+def cube_grid_tets(k):
+    """k x k x k cubes on the integer lattice, each cut into 6 tetrahedra around its main diagonal (Kuhn / Freudenthal
+    triangulation: conforming across cubes). Returns (points, cells); cells are positively oriented for
+    det(p0-p3, p1-p3, p2-p3) > 0. 6 k^3 cells, (k+1)^3 vertices, embedded."""
+    import itertools
+    n = k + 1
+    vid = lambda x, y, z: (x * n + y) * n + z
+    pts = [(x, y, z) for x in range(n) for y in range(n) for z in range(n)]
+    cells = []
+    for x in range(k):
+        for y in range(k):
+            for z in range(k):
+                for perm in itertools.permutations(range(3)):
+                    p = [x, y, z]
+                    chain = [tuple(p)]
+                    for ax in perm:
+                        p[ax] += 1
+                        chain.append(tuple(p))
+                    c = tuple(vid(*q) for q in chain)
+                    if tet_volume6(*(pts[v] for v in c)) < 0:
+                        c = (c[0], c[1], c[3], c[2])
+                    cells.append(c)
+    return pts, cells
+
+
+def cylinder_quads(k, l):
+    """Open cylinder: k quads around, l rings of vertices (k*(l-1) quads, two border loops), integer-ish coordinates."""
+    import math
+    pts = [(round(100 * math.cos(2 * math.pi * i / k)), round(100 * math.sin(2 * math.pi * i / k)), 10 * j) for j in range(l) for i in range(k)]
+    vid = lambda i, j: j * k + (i % k)
+    faces = [(vid(i, j), vid(i + 1, j), vid(i + 1, j + 1), vid(i, j + 1)) for j in range(l - 1) for i in range(k)]
+    return pts, faces
